@@ -654,6 +654,36 @@ theorem C09_invert_invert_neg (a : Ty) (uid u u' : Nat) (h : a.isLogical = true 
   · rw [if_pos h, if_neg hn, hc]
   · simp [Ty.isLogical, hc]
 
+/-- `~T` (T a utype type that is not a negation) is a negation whose single operand is T itself — a function of T
+alone: nothing that was built before (no serial, no earlier negation of T or of a class T inherits from) matters. -/
+theorem C09_invert_args (t : Ty) (u : Nat) (h : t.isLogical = true ∨ ∃ i, t = .dc i)
+    (hn : t.combinator ≠ some .neg) : invert u t = some (.comb .neg [t] u) := by
+  have hp : t.parsed = true := by
+    rcases h with h | ⟨i, rfl⟩
+    · cases t <;> first | rfl | cases h
+    · rfl
+  have hA : t.same .anyT = false := by
+    rcases h with h | ⟨i, rfl⟩
+    · cases t <;> first | rfl | cases h
+    · rfl
+  have hc : combine .neg u [t] = .comb .neg [t] u := by
+    simp [combine, combineLoop, parseArg_of_parsed hp, hA]
+  unfold invert
+  rcases h with h | ⟨i, rfl⟩
+  · rw [if_pos h, if_neg hn, hc]
+  · simp [Ty.isLogical, hc]
+
+/-- `LogicalType.not_of(T)` is a negation whose single operand is (the parsed form of) T, for every T -/
+theorem C09_not_of_args (t : Ty) (u : Nat) : combine .neg u [t] = .comb .neg [parseArg (u + 1) t] u := by
+  cases t <;> simp [combine, combineLoop, parseArg, Ty.same]
+
+/-- the negation step of a construction does not depend on the construction history: at every point `u` of any
+sequence of earlier steps, `~T` builds `Not[T]` -/
+theorem C09_build_inv_history_free (t : Ty) (u : Nat) (h : t.isLogical = true ∨ ∃ i, t = .dc i)
+    (hn : t.combinator ≠ some .neg) :
+    build (.inv (.atom t)) u = some (.comb .neg [t] u, u + stride) := by
+  simp [build, C09_invert_args t u h hn]
+
 /-- Duplicates are absorbed: combining a type with itself gives the type. -/
 theorem C09_combine_idem (op : Comb) (hop : op ≠ .neg) (u : Nat) (t : Ty) (hp : t.parsed = true)
     (hA : t.same .anyT = false) : combine op u [t, t] = t := by
